@@ -1,86 +1,102 @@
 import Fabio.Generated.C09
 import Fabio.Model.C09
-/-! Obligations over the facts regenerated from `/repo` on every run: the constants, call orders and call
-arguments the C09 model silently depends on. -/
+/-! Obligations over the facts regenerated from `/repo` on every run: the constants, event orders and call
+arguments the C09 model silently depends on.
+
+The facts are *events and roles*, not source text (`tools/factgen/c09.go`): the AST is normalised (package
+constants inlined, switch → if chain), handlers are walked with same-package calls and local closures followed,
+and variables are named by role — `client` (the handler's connection), `upstream` (assigned from the dial call),
+`bufreader` (from `bufio.NewReader*`), `header` (result of `Peek`), `hello` (the buffer given to `io.ReadFull`),
+`hsbuf` (the buffer of the websocket handshake read); in `copyBuffer`: `dst`, `src`, `counter`, `buf`, `nr`,
+`er`, `nw`, `ew`. Renaming locals, extracting or inlining helpers, if ↔ switch, named constants and moving code
+between files leave them unchanged. -/
 namespace Fabio.Props.C09Facts
 open Fabio Fabio.Model.C09
 
 /-- `copyBuffer` allocates `32*1024` bytes; the model's `copyBufSize` is that number. -/
 theorem copy_buffer_size : Generated.C09.copyBufBytes = copyBufSize := by decide
 
-/-- The copy loop has one `Read`, one `Write` and the exits the model has (write error, short write,
-read error other than EOF). -/
+/-- The copy loop: one loop; `Read` into the buffer, `Write` of exactly the bytes read, the counter gets the
+bytes written; the tests the model has (byte counts, write error, short write, read error, EOF), the byte
+count examined before the read error; the errors it can return are the write error, `io.ErrShortWrite` and
+the read error. -/
 theorem copy_loop_shape :
-    Generated.C09.copyReads = 1 ∧ Generated.C09.copyWrites = 1 ∧
-    Generated.C09.copyConds = ["nr > 0", "nw > 0", "c != nil", "ew != nil", "nr != nw", "er != nil", "er != io.EOF"] :=
-  ⟨rfl, rfl, rfl⟩
+    Generated.C09.copyLoops = 1 ∧
+    Generated.C09.copyCalls = ["src.Read(buf)", "dst.Write(buf[:nr])", "counter.Add(float64(nw))"] ∧
+    Generated.C09.copyTests =
+      ["cmp(counter,nil)", "cmp(er,io.EOF)", "cmp(er,nil)", "cmp(ew,nil)", "cmp(nr,nw)", "nr > 0", "nw > 0"] ∧
+    Generated.C09.copyTestOrder = ["nr", "nw", "counter", "ew", "nr", "er"] ∧
+    Generated.C09.copyResults = ["er", "ew", "io.ErrShortWrite"] :=
+  ⟨rfl, rfl, rfl, rfl, rfl⟩
 
-/-- `SNIProxy.ServeTCP` peeks 9 bytes through a default-size (4096) `bufio.Reader` over the client
-connection, reads the hello through the same reader and hands `data[5:]` to the parser. -/
-theorem sni_read_shape :
-    Generated.C09.sniPeek = 9 ∧
-    Generated.C09.sniConnParam = "in" ∧
-    Generated.C09.sniBufReaderVar = "tlsReader" ∧
-    Generated.C09.sniBufReaderCtor = "bufio.NewReader(in)" ∧
-    Generated.C09.sniReadFullArgs = "tlsReader, data" ∧
-    Generated.C09.sniServerNameArg = "data[5:]" :=
-  ⟨rfl, rfl, rfl, rfl, rfl, rfl⟩
-
-/-- Order in `SNIProxy.ServeTCP`: peek → size → ReadFull → parse → lookup → dial → PROXY line → hello →
-the two copies; the client→upstream copy reads from the buffered reader (`codeCopySrc`). -/
+/-- `SNIProxy.ServeTCP`: a default-size `bufio.Reader` over the client connection, `Peek(9)`, the size from
+the peeked header, `io.ReadFull` through the same reader, the parser on `hello[5:]`, lookup, dial, PROXY line
+(which writes to the upstream), the hello, then the two concurrent copies — the client→upstream one reading
+from the buffered reader (`codeCopySrc`) — and one receive from the error channel. No other event. -/
 theorem sni_call_order :
-    Generated.C09.sniCallOrder =
-      ["tlsReader.Peek", "clientHelloBufferSize", "io.ReadFull", "readServerName", "p.Lookup",
-       "net.DialTimeout", "WriteProxyHeader", "out.Write(data)", "go cp(in, out)", "go cp(out, tlsReader)"] ∧
+    Generated.C09.sniEvents =
+      ["bufreader(client)", "peek(9)", "size(header)", "readfull(bufreader)", "parse(hello[5:])", "lookup",
+       "dial", "proxyheader(upstream,client)", "write(upstream,other)", "write(upstream,hello)",
+       "go copy client<-upstream", "go copy upstream<-bufreader", "recv"] ∧
     codeCopySrc = .buffered :=
   ⟨rfl, rfl⟩
 
-/-- Plain TCP: dial → PROXY line → the two copies, both on the raw connections. -/
+/-- Plain TCP and tcp-dynamic: lookup(s) → dial → PROXY line → the two concurrent copies on the raw
+connections → one receive; the websocket handler: hijack → dial → request relayed → handshake read (1024
+bytes, 1 s read deadline) relayed to the client and checked for the `HTTP/1.1 101` prefix → deadline cleared →
+the two concurrent copies → one receive. -/
 theorem tcp_call_order :
-    Generated.C09.tcpCallOrder = ["net.DialTimeout", "WriteProxyHeader", "go cp(in, out)", "go cp(out, in)"] ∧
-    Generated.C09.tcpCopies = ["in<-out", "out<-in"] ∧
-    Generated.C09.dynCopies = ["in<-out", "out<-in"] ∧
-    Generated.C09.wsCopies = ["out<-in", "in<-out"] ∧ Generated.C09.wsIoCopies = 1 :=
-  ⟨rfl, rfl, rfl, rfl, rfl⟩
+    Generated.C09.tcpEvents =
+      ["lookup", "dial", "proxyheader(upstream,client)", "write(upstream,other)",
+       "go copy client<-upstream", "go copy upstream<-client", "recv"] ∧
+    Generated.C09.dynEvents =
+      ["lookup", "lookup", "dial", "proxyheader(upstream,client)", "write(upstream,other)",
+       "go copy client<-upstream", "go copy upstream<-client", "recv"] ∧
+    Generated.C09.wsEvents =
+      ["hijack", "dial", "writeto(upstream)", "upstream.SetReadDeadline(now+d)", "read(upstream,1024)",
+       "write(client,hsbuf)", "hasprefix(hsbuf,[]byte(\"HTTP/1.1 101\"))", "upstream.SetReadDeadline(zero)",
+       "go copy upstream<-client", "go copy client<-upstream", "recv"] :=
+  ⟨rfl, rfl, rfl⟩
 
-/-- All four tunnels: `errc` has room for both results and the handler returns after the **first** one
-(mode `firstEnds` of the tunnel machine). -/
+/-- All four tunnels: the error channel has room for both results and the handler receives **once** (mode
+`firstEnds` of the tunnel machine). -/
 theorem first_finished_direction_ends_tunnel :
     (Generated.C09.tcpErrcCap = 2 ∧ Generated.C09.tcpErrcReceives = 1) ∧
     (Generated.C09.sniErrcCap = 2 ∧ Generated.C09.sniErrcReceives = 1) ∧
     (Generated.C09.dynErrcCap = 2 ∧ Generated.C09.dynErrcReceives = 1) ∧
     (Generated.C09.wsErrcCap = 2 ∧ Generated.C09.wsErrcReceives = 1) := by decide
 
-/-- Who writes a PROXY line. -/
+/-- Who writes a PROXY line: the three tcp handlers (event `proxyheader` above; `dynWritesProxyHeader` is the
+model's constant for tcp-dynamic), not the websocket handler. -/
 theorem proxy_header_writers :
     Generated.C09.tcpWritesProxyHeader = true ∧ Generated.C09.sniWritesProxyHeader = true ∧
     Generated.C09.dynWritesProxyHeader = dynWritesProxyHeader ∧ Generated.C09.wsWritesProxyHeader = false := by decide
 
 /-- `WriteProxyHeader` builds the line from these parts in this order, the family from the client
-address alone, the addresses from `in.RemoteAddr()` / `in.LocalAddr()`. -/
+address alone, the addresses from the client connection's `RemoteAddr()` / `LocalAddr()`. -/
 theorem proxy_header_parts :
     Generated.C09.pxyHeaderParts =
-      ["lit:PROXY ", "proto", "lit: ", "clientAddr", "lit: ", "serverAddr", "lit: ", "clientPort", "lit: ",
+      ["lit:PROXY ", "family", "lit: ", "clientAddr", "lit: ", "serverAddr", "lit: ", "clientPort", "lit: ",
        "serverPort", "lit:\r\n"] ∧
-    Generated.C09.pxyFamily = "net.ParseIP(clientAddr).To4() != nil ? { proto = \"TCP4\" } : { proto = \"TCP6\" }" ∧
-    Generated.C09.pxySplitArgs = ["in.RemoteAddr().String()", "in.LocalAddr().String()"] :=
+    Generated.C09.pxyFamily = ["TCP4 if net.ParseIP(clientAddr).To4() != nil", "TCP6 otherwise"] ∧
+    Generated.C09.pxySplitArgs = ["client.RemoteAddr().String()", "client.LocalAddr().String()"] :=
   ⟨rfl, rfl, rfl⟩
 
 /-- The socket contract the tunnel machine assumes (orderly close, writes without deadline) is not
-disturbed by the code: the tcp tunnel handlers call no socket-option, deadline or half-close method at all;
-the websocket handler only bounds its handshake read and clears that deadline before the copy phase;
-`server.go`'s `conn` wrapper sets per-call deadlines only under a configured `ReadTimeout`/`WriteTimeout`. -/
+disturbed by the code: the event lists above are complete with respect to socket-option, deadline and
+half-close calls (`SetLinger`, `Set*Deadline`, `SetNoDelay`, `SetKeepAlive*`, `Set*Buffer`, `CloseWrite`,
+`CloseRead`) on every path from the handlers — the tcp handlers and `copyBuffer` have none, the websocket
+handler only bounds its handshake read and clears that deadline before the copy phase — and the connection
+wrapper `Server.Serve` puts around accepted connections sets per-call deadlines only under a configured
+`ReadTimeout`/`WriteTimeout`. -/
 theorem no_socket_options_in_tunnel_handlers :
-    Generated.C09.tcpSockOpts = [] ∧ tunnelHandlersTouchSocketOptions = false ∧
-    Generated.C09.wsSockOpts =
-      ["ws_handler.go newWSHandler: out.SetReadDeadline(time.Now().Add(time.Second))",
-       "ws_handler.go newWSHandler: out.SetReadDeadline(time.Time{})"] ∧
+    Generated.C09.tcpSockOpts = [] ∧ Generated.C09.sniSockOpts = [] ∧ Generated.C09.dynSockOpts = [] ∧
+    Generated.C09.copySockOpts = [] ∧ tunnelHandlersTouchSocketOptions = false ∧
+    Generated.C09.wsSockOpts = ["upstream.SetReadDeadline(now+d)", "upstream.SetReadDeadline(zero)"] ∧
     Generated.C09.serverSockOpts =
-      ["server.go *conn.Read: c.c.SetReadDeadline(time.Now().Add(c.ReadTimeout)) if c.ReadTimeout > 0",
-       "server.go *conn.Write: c.c.SetWriteDeadline(time.Now().Add(c.WriteTimeout)) if c.WriteTimeout > 0",
-       "server.go *conn.SetDeadline: c.c.SetDeadline(t)",
-       "server.go *conn.SetReadDeadline: c.c.SetReadDeadline(t)",
-       "server.go *conn.SetWriteDeadline: c.c.SetWriteDeadline(t)"] :=
-  ⟨rfl, rfl, rfl, rfl⟩
+      ["Read: SetReadDeadline(now+recv.ReadTimeout) if recv.ReadTimeout > 0",
+       "SetDeadline: SetDeadline(p0)", "SetReadDeadline: SetReadDeadline(p0)", "SetWriteDeadline: SetWriteDeadline(p0)",
+       "Write: SetWriteDeadline(now+recv.WriteTimeout) if recv.WriteTimeout > 0"] := by
+  exact ⟨rfl, rfl, rfl, rfl, rfl, rfl, rfl⟩
 
 end Fabio.Props.C09Facts
